@@ -175,7 +175,7 @@ func (fr *Frame) staticCall(callee *ssa.Function, binds []*Val, args []*Val, st 
 	}
 	// 2. contract (in frame mode a callee whose contract lists assigned locations is inlined instead when
 	// possible, so that conditional writes such as lazily filled caches are judged under their real guard)
-	if ct := eng.contractFor(callee); ct != nil && !eng.forceInline[key] {
+	if ct := eng.contractFor(callee); ct != nil && !eng.forceInline[key] && !ct.onlyLoopInvs() {
 		return fr.applyContract(ct, callee, nil, args, st, pos, resTy, key)
 	}
 	// 3. inline
